@@ -36,8 +36,9 @@ def nearDetermined (g : Geometry) (b : Nat) : Bool :=
   let sorted := Np.isort (fun (a b : Rat) => decide (a ≤ b)) ds
   g.nClosest = 0 || g.nClosest ≥ nc || decide (sorted.getD (g.nClosest - 1) 0 < sorted.getD g.nClosest 0)
 
-/-- dense record with automatic channel selection -/
-def denseOK (g : Geometry) (T : Mat) (thr : Rat) (r : Record) : Bool :=
+/-- dense record with automatic channel selection, everything but the cardinality of the neighbourhood at a distance
+tie (`nearCountOK` below) -/
+def denseBaseOK (g : Geometry) (T : Mat) (thr : Rat) (r : Record) : Bool :=
   let nc := ncols T
   let amp := chAmps T
   let mx := listMax amp
@@ -52,6 +53,34 @@ def denseOK (g : Geometry) (T : Mat) (thr : Rat) (r : Record) : Bool :=
     let (must, mustNot) := nearInfo g r.best c
     let inS := r.channels.contains c
     (!(must && cond) || inS) && (!(mustNot || !cond) || !inS))
+
+/-- channel `c` reaches the threshold fraction of the peak and lies on the shank of channel `best` -/
+def eligible (g : Geometry) (T : Mat) (thr : Rat) (best c : Nat) : Bool :=
+  decide ((chAmps T).getD c 0 ≥ thr * listMax (chAmps T)) &&
+    (match g.shanks with | some sh => sh.getD c 0 == sh.getD best 0 | none => true)
+
+/-- "Exactly those among the nearest channels", cardinality at a distance tie.  With `0 < n < nc` let `cut` be the
+`n`-th smallest distance to `b` and `s` the number of channels strictly closer than `cut`: EVERY set of `n` nearest
+channels consists of those `s` channels and of exactly `n − s` of the channels AT distance `cut`.  The listed
+channels are (eligible ∩ N) for SOME such set `N` iff, among the channels at distance `cut`, at most `n − s` are
+listed (`s + a ≤ n`) and the eligible ones that are NOT listed leave room for `n − s` chosen ones
+(`n + b ≤ s + #tie`).  (Without a tie at the cut this says: every eligible channel at distance `cut` is listed.) -/
+def nearCountOK (g : Geometry) (b : Nat) (elig : Nat → Bool) (listed : List Nat) : Bool :=
+  let nc := g.positions.length
+  let ds := (List.range nc).map (dist2 g.positions b)
+  let sorted := Np.isort (fun (a b : Rat) => decide (a ≤ b)) ds
+  if g.nClosest = 0 || g.nClosest ≥ nc then true
+  else
+    let cut := sorted.getD (g.nClosest - 1) 0
+    let s := ((List.range nc).filter fun c => decide (ds.getD c 0 < cut)).length
+    let tie := (List.range nc).filter fun c => decide (ds.getD c 0 = cut)
+    let a := (tie.filter fun c => listed.contains c).length
+    let bb := (tie.filter fun c => elig c && !listed.contains c).length
+    decide (s + a ≤ g.nClosest) && decide (g.nClosest + bb ≤ s + tie.length)
+
+/-- dense record with automatic channel selection -/
+def denseOK (g : Geometry) (T : Mat) (thr : Rat) (r : Record) : Bool :=
+  denseBaseOK g T thr r && nearCountOK g r.best (eligible g T thr r.best) r.channels
 
 /-- dense record with the caller's explicit channel list -/
 def denseExplicitOK (T : Mat) (l : List Nat) (r : Record) : Bool :=
